@@ -186,9 +186,20 @@ func Translator(ks keystore.ServerKeyStore, callbacks base.PoisonRecordCallbackS
 		tok, err = pseudonymization.NewPseudoanonymizer(ts)
 		must(err)
 	}
-	svc, err := common.NewTranslatorService(&common.TranslatorData{Keystorage: translatorKS{ks}, PoisonRecordCallbacks: callbacks, Tokenizer: tok})
+	svc, err := common.NewTranslatorService(TranslatorData(ks, callbacks, tok))
 	must(err)
 	return svc
+}
+
+// TranslatorData is the configuration object shared by the translator's services.
+func TranslatorData(ks keystore.ServerKeyStore, callbacks base.PoisonRecordCallbackStorage, tok tokencommon.Pseudoanonymizer) *common.TranslatorData {
+	if tok == nil {
+		ts, err := storage.NewMemoryTokenStorage()
+		must(err)
+		tok, err = pseudonymization.NewPseudoanonymizer(ts)
+		must(err)
+	}
+	return &common.TranslatorData{Keystorage: translatorKS{ks}, PoisonRecordCallbacks: callbacks, Tokenizer: tok}
 }
 
 // Describe formats an error for messages.
